@@ -222,21 +222,29 @@ def _expect_cmd(bits, value, dt):
     return _norm_cmd(c)
 
 
-def feed(proto, stream, chunks):
-    """Returns (items per queue as dict, exceptions)."""
-    if proto == "luba":
-        p = sermod.DriverLubaRs232.LubaProtocol()
-    else:
-        p = sermod.DriverSCIRS232.SCIRS232Protocol()
+def feed(proto, stream, chunks, other=None):
+    """Returns (items per queue as dict, exceptions).  `other`: the byte stream of a second serial
+    port whose receiver object is alive at the same time and gets its bytes in between."""
+    cls = sermod.DriverLubaRs232.LubaProtocol if proto == "luba" else sermod.DriverSCIRS232.SCIRS232Protocol
+    p = cls()
+    q = cls() if other is not None else None
     child = sermod.DistributorQueue(p.queue_rx_dali)
     excs = []
     pos = 0
+    opos = 0
     for c in chunks:
         try:
             p.data_received(stream[pos:c])
         except Exception as e:              # noqa: BLE001 - judged
             excs.append((pos, type(e).__name__, str(e)[:80], p._rx_state.name))
         pos = c
+        if q is not None and opos < len(other):
+            step = 1 + (c % 3)
+            try:
+                q.data_received(other[opos:opos + step])
+            except Exception:               # noqa: BLE001 - the other port is not what is judged
+                pass
+            opos += step
     out = {"raw": [], "cmd": [], "conf": [], "info": []}
     while not p._queue_rx_raw_dali.empty():
         out["raw"].append(p._queue_rx_raw_dali.get_nowait())
@@ -305,8 +313,10 @@ def run_plan(plan):
         if not exp["raw"] or exp["raw"][-1] != plan["probe_value"]:
             raise RuntimeError("reference did not accept the probe frame: harness bug")
         results = {}
+        o_stream, _k = (gen_luba_stream if proto == "luba" else gen_sci_stream)(plans.rng_for(plan["seed"], PROP + "-other-port"))
+        chunkings["bytes+second-port"] = list(range(1, n + 1))
         for name, chunks in chunkings.items():
-            got, excs = feed(proto, stream, chunks)
+            got, excs = feed(proto, stream, chunks, other=bytes(o_stream) * 3 if name == "bytes+second-port" else None)
             results[name] = got
             log.add(0, "chunking", name, (len(chunks), len(excs)))
             if excs:
